@@ -19,7 +19,7 @@ RULE = ("(reorder) Hypothesis draws bases of 2-3 (thorough: 2-4) generalized she
         "real symmetric operators must be symmetric, momentum-type ones Hermitian, the repulsion array eight-fold symmetric.  "
         "(orientation) the shell blocks of every two-index kernel class are computed in both orientations, and of the repulsion "
         "kernel in all eight, independently, and must be index-exchanged (conjugated for momentum-type) copies of each other - "
-        "for generated quartets (exponents 0.1-10), for diffuse/very tight pairs (two-index kernels, generator of C08 'extreme-ratio'), for many-primitive quartets (1-10 primitives per shell, recursion work space "
+        "for generated quartets (exponents 0.1-10), for diffuse/very tight pairs (two-index kernels, generator of C08 'extreme-ratio'), for the enumerated equal-l corners of C03 with wide (diffuse+tight) contractions on either or both shells (point-charge and overlap kernels, l = 1..3 quick / 1..5 thorough, 75 pairs each), for many-primitive quartets (1-10 primitives per shell, recursion work space "
         "2^20..2^24.7, generator of C04 'heavy') and for the fixed list of ill-conditioned quartets of C04.  Non-trivial: a "
         "permutation that moves a shell across one of a different block size; an orientation pair with different l.")
 ASSUMPTIONS = ["ERI relations judged at 2e-6 of the propagated magnitude (the accuracy C04 claims bounds how well two evaluations agree)"]
@@ -147,7 +147,7 @@ def judge_orient(case):
         v.classes.append("same-contraction")
     sl = [mk_shell(s) for s in shells]
     for name, arity, call in KERNELS:
-        if arity != 2:
+        if arity != 2 or (case.get("kernels") and name not in case["kernels"]):
             continue
         a = lib(call, [sl[0], sl[1]], env)
         b = lib(call, [sl[1], sl[0]], env)
@@ -233,6 +233,30 @@ def shards_orient_extreme(tier):
     return [{"id": f"{la}{lb}", "la": la, "lb": lb, "n": n, "cost": 20 * n} for la in range(4) for lb in range(4)]
 
 
+def orient_wide_cases(shard):
+    """Point-charge and overlap blocks in both orientations for the enumerated corners of C03 (pairs of EQUAL angular momentum,
+    every combination of {diffuse, tight, middle, diffuse+tight contraction in either primitive order} on the two shells, three
+    separations, charges on both centres and off the axis): neither the L_a >= L_b rule nor the exponents of a single primitive
+    decide which shell the recursion runs on, and the primitives of a wide contraction may be treated in groups."""
+    from vf.props import c03
+    for c in c03.corner_cases({"l": shard["l"]}):
+        r = c["coords"][1]
+        env = {"origin": [0.1, -0.2, 0.3], "orders": [[1, 0, 1]], "points": [[0.0, 0.0, 0.0]], "deriv_order": [0, 0, 0],
+               "nuc_coords": c["coords"] + [[0.37 * r[1], -0.21 * r[2], 0.5 * r[2]]], "nuc_charges": c["charges"] + [1.5]}
+        shells = [dict(c["shells"][0]), dict(c["shells"][1])]
+        if c["extreme"].count("wide") == 2:  # two segments on the second shell: the block is not symmetric in its segment indices either
+            shells[1]["coeffs"] = [[0.7, 0.2], [0.3, -0.9]]
+            # unequal ranges (tight primitive of the second shell at a quarter of the cap, its diffuse one 1.5 times wider): with
+            # equal ranges neither shell is "the tighter one" and no order is ever exchanged
+            hi_ = max(shells[1]["exps"])
+            shells[1]["exps"] = [e / 4 if e == hi_ else e * 1.5 for e in shells[1]["exps"]]
+        yield {"shells": shells, "env": env, "eri": False, "extreme": c["extreme"], "kernels": ["PointChargeIntegral", "Overlap"]}
+
+
+def shards_orient_wide(tier):
+    return [{"id": f"l{l}", "l": l, "cost": 75 * (1 + 2 * l) ** 2} for l in ((1, 2, 3) if tier == "quick" else (1, 2, 3, 4, 5))]
+
+
 def shards_orient(tier):
     k, n = (16, 2) if tier == "quick" else (48, 12)
     return [{"id": i, "n": n, "cost": 40 * n} for i in range(k)]
@@ -248,6 +272,7 @@ SUBCHECKS = [
     SubCheck("reorder", judge, shards, strategy=lambda s: case_st(s["eri"], s.get("nmax", 3))),
     SubCheck("orientation", judge_orient, shards_orient, strategy=lambda s: orient_case()),
     SubCheck("orientation-extreme", judge_orient, shards_orient_extreme, strategy=lambda s: orient_extreme_case(s["la"], s["lb"])),
+    SubCheck("orientation-wide", judge_orient, shards_orient_wide, cases=orient_wide_cases),
     SubCheck("orientation-heavy", judge_heavy, shards_heavy, strategy=heavy_strategy),
     SubCheck("orientation-illcond", judge_ill, shards_ill, cases=lambda s: ill_list()[s["lo"]:s["hi"]][::2]),
 ]
